@@ -8,7 +8,13 @@ Top-level clauses (from the property statement, oracle = reference model below, 
   one_object_per_row    read succeeds; exactly one object (never None) per data row of the table
                         extent (title row = first non-blank row; data rows up to the end rule or
                         the end of the sheet), in sheet order (the cells an object reports as its
-                        origins lie in its own row)
+                        origins lie in its own row).  'blank all' ends the table at the first row in
+                        which EVERY cell of the sheet row is blank: a 'margin-note row' (blank in
+                        the titled columns, text in a blank-titled margin column) does not end it.
+                        For such a row of a plain sheet only this is demanded: its entry is None,
+                        an object that matches its (blank) cells, or absent; the rows after it are
+                        still produced.  In a ladder sheet it is an ordinary row (all cells 'same
+                        as above').
   value_matches_origin  simple attribute: the reported origin names a cell of the sheet, the value
                         is convert(that cell), and the cell is in the column whose title the rule
                         names; missing optional / external attribute: value == declared default
@@ -205,6 +211,9 @@ class Model:
                 break
             rows.append(r)
         self.data_rows = rows
+        # margin-note rows: blank in every titled column, yet not blank as a sheet row
+        self.gap_rows = [r for r in rows if stop_on == 'blank all'
+                         and all(blank(grid[r][c]) for c in range(self.ncols) if self.titles[c])]
         # ladder: where the value of (r, c) is actually held
         self.src = {(r, c): (r, c) for r in rows for c in range(self.ncols)}
         self.run_len = {}
@@ -267,11 +276,7 @@ def preconditions(case, m=None):
     upto = m.data_rows + ([m.end_row] if m.end_row is not None else [])
     for r in upto:
         row = m.grid[r]
-        if case['stop_on'] == 'blank all':
-            titled_blank = all(blank(row[c]) for c in range(m.ncols) if m.titles[c])
-            if titled_blank and not all(blank(v) for v in row):
-                return 'row blank in titled columns only'
-        else:
+        if case['stop_on'] == 'blank first':
             if m.first_titled is not None and blank(row[0]) != blank(row[m.first_titled]):
                 return 'first sheet cell / first titled cell disagree'
     if m.ladder:
@@ -280,9 +285,13 @@ def preconditions(case, m=None):
             if any(not blank(row[c]) for c in blank_titled if c > (m.first_titled or 0)):
                 return 'content in an interior blank-titled column of a ladder sheet'
             if i == 0:
+                if r in m.gap_rows:
+                    return 'first data row of a ladder sheet is a margin-note row'
                 continue
             e = m.first_titled + m.run_len[r]
             if e >= m.ncols:
+                if r in m.gap_rows:
+                    continue        # margin-note row: every table cell 'same as above'
                 return 'ladder row blank to the end'
             if m.has_ranged:
                 for run in m.runs:
@@ -299,6 +308,8 @@ def preconditions(case, m=None):
             return 'key attribute is not read from a cell'
         c = m.col_of[first['column']]
         for r in m.data_rows:
+            if r in m.gap_rows and not m.ladder:
+                continue
             sr, sc = m.src[(r, c)]
             if blank(m.grid[sr][sc]):
                 return 'blank key'
@@ -448,13 +459,27 @@ def check_objects(case, m, objs):
                         f"{what} of the object of row {r + 1}: origin {o_txt} is not in the object's row "
                         f"(expected {coord(exp)})"))
 
-    if len(objs) != len(m.data_rows):
+    gaps = [] if lad else m.gap_rows        # plain sheets: the entry of a margin-note row is not pinned down
+    rows = m.data_rows
+    if len(objs) == len(m.data_rows):
+        pass
+    elif gaps and len(objs) == len(m.data_rows) - len(gaps):
+        rows = [r for r in m.data_rows if r not in gaps]
+        diags.append("rows blank in all titled columns are skipped without an entry")
+    else:
         kind = 'too-few' if len(objs) < len(m.data_rows) else 'too-many'
+        if len(objs) in [m.data_rows.index(g) for g in m.gap_rows]:
+            kind = 'table-ended-by-margin-note-row'
         out.append(('one_object_per_row', kind,
-                    f"{len(objs)} objects for {len(m.data_rows)} data rows (rows {[r + 1 for r in m.data_rows]}, "
-                    f"stop_on={case['stop_on']!r}, ladder={lad})"))
+                    f"{len(objs)} entries for the {len(m.data_rows)} rows {[r + 1 for r in m.data_rows]} between the "
+                    f"title row and the first entirely blank sheet row / end of sheet (stop_on={case['stop_on']!r}, "
+                    f"ladder={lad}; rows blank in the titled columns only: {[r + 1 for r in m.gap_rows]})"))
         return out, diags
-    for i, (o, r) in enumerate(zip(objs, m.data_rows)):
+    for i, (o, r) in enumerate(zip(objs, rows)):
+        if o is None and r in gaps:
+            continue
+        if r in gaps and case['num_id']:
+            diags.append("a row with a blank key produced an object instead of None")
         if o is None or not isinstance(o, xlsread.XlsObject):
             out.append(('one_object_per_row', 'not-an-object', f"entry {i} (row {r + 1}) is {o!r}"))
             continue
@@ -721,6 +746,16 @@ def features(case, m):
                     ev.add('ladder-substituted-column-group')
     if any(blank(m.grid[r][c]) for r in m.data_rows for c in range(m.ncols) if m.titles[c]):
         ev.add('blank-data-cell')
+    if m.gap_rows:
+        later = any(r > m.gap_rows[0] and r not in m.gap_rows for r in m.data_rows)
+        if later:
+            ev.add('ladder-margin-note-row-then-data' if m.ladder else 'margin-note-row-then-data')
+            outside = [c for c, x in enumerate(m.titles) if not x and (c < m.first_titled or all(
+                not y for y in m.titles[c:]))]
+            if any(not blank(m.grid[m.gap_rows[0]][c]) for c in outside):
+                ev.add('margin-note-outside-the-titled-span-then-data')
+        else:
+            ev.add('margin-note-row-last')
     if first_attr_class(case, m):
         ev.add('first-attribute-not-read-from-a-cell')
     if case['num_id']:
@@ -824,6 +859,9 @@ def gen_case(layout, rng):
     if rng.random() < 0.4:
         pos = rng.choice([0, 0, len(cols)] + list(range(1, len(cols))))
         cols.insert(pos, {'title': rng.choice([None, ' ']), 'type': 'blank', 'role': 'blank'})
+        if rng.random() < 0.35:     # margins on both sides / a second untitled column
+            pos = rng.choice([0, len(cols), len(cols), rng.randint(0, len(cols))])
+            cols.insert(pos, {'title': rng.choice([None, ' ']), 'type': 'blank', 'role': 'blank'})
     # absent attributes (missing optional column / external) and attribute order
     n_abs = rng.choice([0, 1, 1, 2])
     extra_attrs = [dict(a) for a in rng.sample(ABSENT, n_abs)]
@@ -859,7 +897,25 @@ def gen_case(layout, rng):
     grid.append([c['title'] for c in cols])
     n_rows = rng.randint(1, 5)
     p_blank = rng.choice([0.1, 0.25, 0.5])
+    # margin-note rows ('blank all' only): blank in the titled columns, text in a blank-titled column
+    margin_cols = [c for c in range(ncols) if cols[c]['role'] == 'blank' and (not ladder or c < ft)]
+    gap_idx = set()
+    if stop_on == 'blank all' and margin_cols and rng.random() < 0.6:
+        n_rows = max(n_rows, 3)
+        lo = 1 if ladder else 0
+        g = rng.randint(lo, n_rows - 2) if rng.random() < 0.85 else n_rows - 1
+        gap_idx.add(g)
+        if rng.random() < 0.2 and g + 1 < n_rows:
+            gap_idx.add(g + 1)
     for i in range(n_rows):
+        if i in gap_idx:
+            row = [_blank_value(rng, c['type']) for c in cols]
+            for c in range(ncols):
+                if cols[c]['role'] == 'blank' and c not in margin_cols:
+                    row[c] = None
+            row[rng.choice(margin_cols)] = rng.choice(['-- part 2', 'note', 7])
+            grid.append(row)
+            continue
         row = [_value(rng, c['type'], p_blank) for c in cols]
         if ladder:
             for c in range(ft + 1, ncols):
@@ -907,6 +963,8 @@ def gen_case(layout, rng):
         first_data = len(grid) - n_rows
         for i in range(n_rows):
             r = first_data + i
+            if i in gap_idx:
+                continue
             held = not blank(grid[r][key_col])
             if ladder and i > 0 and not held:
                 # substituted from above iff every cell from the first titled column up to it is blank
@@ -947,11 +1005,31 @@ def first_attr_probe_case():
             'num_id': 0, 'stop_on': 'blank all', 'ladder': False}
 
 
+def margin_note_probe_case():
+    """'blank all' with a margin note next to a gap row: titles in B..D, margins A and E, class with a key"""
+    _ = None
+    return {'title': 'staff', 'grid': [
+        [_, _, _, _, _],
+        [_, 'Id', 'Name', 'Status', _],
+        [_, 10, 'Richard', 20, _],
+        [_, 20, 'Arnold', 20, 'checked'],
+        ['-- part 2', _, _, _, _],
+        [_, 30, 'Harry', 20, _],
+        [_, 40, 'Sally', 30, _],
+        [_, _, _, _, _],
+        [_, 50, 'Ghost', 0, _]],
+        'attrs': [{'name': 'id', 'kind': 'cell', 'column': 'Id', 'reader': 'int'},
+                  {'name': 'name', 'kind': 'cell', 'column': 'Name', 'reader': 'str'},
+                  {'name': 'status', 'kind': 'cell', 'column': 'Status', 'reader': 'int'}],
+        'num_id': 1, 'stop_on': 'blank all', 'ladder': False}
+
+
 REACH = ['ladder-run>=2-cells-over>=2-rows', 'missing-optional-column', 'range-crossing-Z/AA',
          'external-attribute', 'ranged-attribute-without-columns', 'unknown-extra-column', 'blank-titled-column',
          'leading-blank-rows', 'trailing-content-after-end-row', 'end-row-with-content', 'table-ends-with-sheet',
          'range-first', 'range-between', 'range-last', 'ladder-substituted-column-group', 'blank-data-cell',
-         'optional-column-present', 'class-with-key-attribute']
+         'optional-column-present', 'class-with-key-attribute', 'margin-note-row-then-data',
+         'ladder-margin-note-row-then-data', 'margin-note-outside-the-titled-span-then-data', 'margin-note-row-last']
 
 
 def variants(tier):
@@ -991,8 +1069,9 @@ def run(b):
         for i in range(0, len(all_layouts), step):
             jobs.append((b.seed, v, all_layouts[i:i + step]))
     rejected = {}
-    # two fixed members of the space first: the 29-column sheet of Appendix A, the smallest external-first rule set
-    results = [[_one(defect_probe_case()), _one(first_attr_probe_case())]]
+    # fixed members of the space first: the 29-column sheet of Appendix A, the smallest external-first rule
+    # set, a 'blank all' table with a margin note next to a gap row
+    results = [[_one(defect_probe_case()), _one(first_attr_probe_case()), _one(margin_note_probe_case())]]
     ctx = multiprocessing.get_context('fork')
     with ctx.Pool(min(12, max(1, (multiprocessing.cpu_count() or 2) - 2))) as pool:
         results += pool.map(_work, jobs, chunksize=1)
